@@ -20,3 +20,10 @@ package offsetfetch
 //@ wire ResponsePartition
 //@   layout v0..v4 PartitionIndex int32, CommittedOffset int64, Metadata string?, ErrorCode int16
 //@   layout v5 PartitionIndex int32, CommittedOffset int64, ComittedLeaderEpoch int32, Metadata string?, ErrorCode int16
+
+//@ property C12
+// Routing (C12): which of the protocol message interfaces the request satisfies decides where the Transport sends it
+// (connPool.sendRequest tests BrokerMessage, then GroupMessage, then TransactionalMessage).
+//@ wire Request
+//@   implements protocol.GroupMessage
+//@   notimplements protocol.BrokerMessage
